@@ -134,8 +134,8 @@ Proof.
       * destruct (r_kind r); intros HK; apply (acct_same_senders s _ A HK); try reflexivity; intros o' c' H;
           use_updop H.
       * destruct (o_chan c); cbn [negb].
-        -- destruct (o_deadline c) as [d|]; [|intros; exact A]. destruct (d <=? now s); [|intros; exact A].
-           destruct (is_running s); intros HK; apply (acct_same_senders s _ A HK); try reflexivity; intros o' c' H;
+        -- destruct (o_tmo c) as [d|]; [match goal with |- context [if ?b then _ else _] => destruct b end; [destruct (is_running s)|]|];
+             intros HK; apply (acct_same_senders s _ A HK); try reflexivity; intros o' c' H;
              use_updop H.
         -- intros HK; apply (acct_same_senders s _ A HK); try reflexivity; intros o' c' H;
              use_updop H.
@@ -483,7 +483,7 @@ Proof.
   intros A. pose proof (step_keyed s (Start k tmo) (a_keyed s A)) as HK. revert HK. unfold step.
   destruct (next_msgid (last s) (inuse s)) as [mid| |]; try (intros; exact A).
   set (onew := mkOp mid k (option_map (Z.add (now s)) tmo) CWait OsEmpty [] 0
-                    (match k with KSearch _ => true | _ => false end) (match k with KSearch _ => true | _ => false end) [] None).
+                    (match k with KSearch _ => true | _ => false end) (match k with KSearch _ => true | _ => false end) [] None tmo None).
   destruct (is_running s) eqn:Hr; intros HK.
   - (* queued *)
     assert (G : forall o, getop (s <| last := mid |> <| inuse ::= cons mid |> <| ops ::= fun l => l ++ [onew] |> <| opq ::= fun q => q ++ [length (ops s)] |>) o =
